@@ -9,6 +9,15 @@ CHECKS = {
                 "exit the reported length is 0 and every data-dependent output write is followed by a constant fill. This decides the "
                 "control/data-flow clauses of C02, not the MAC arithmetic (that a changed bit changes the tag).",
     },
+    "C04": {
+        "engine": "PathAI (E1)",
+        "technique": "interval analysis from branch facts vs header constants; checklist path analysis of MAC verification",
+        "text": "Static, for all inputs: every success exit and every hand-over to the BLAKE2b/HMAC core of the generic-hash, BLAKE2b, KDF and "
+                "HKDF entry points has its output/key/subkey lengths inside the public header limits (R4.1); each MAC verify function returns 0 "
+                "only after recomputing the tag over the caller's (in, inlen, k) and a full-length constant-time comparison with the caller's "
+                "tag, incl. every dispatch target of the generic front ends (R4.2). Digest values, chunking associativity, Poly1305 carries "
+                "and HKDF chaining are not decided.",
+    },
     "C06": {
         "engine": "PathAI (E1) + call-graph effects (E2)",
         "technique": "path-sensitive checklist analysis of the verifier + call-graph reachability / global-effect analysis of signing",
@@ -32,8 +41,8 @@ CHECKS = {
         "engine": "PathAI (E1) + sibling agreement (E7)",
         "technique": "interval analysis from branch facts vs header constants; tri-state / decode-before-answer path analysis",
         "text": "Static, for all inputs: at every call into an Argon2/scrypt core and at every success exit of the raw and string APIs each "
-                "limited parameter lies within the [MIN, MAX] constants folded from sodium.h (reports the genuine gap F2: the scrypt API never "
-                "tests opslimit/memlimit; listed in known_findings.txt); generic dispatchers only forward arguments to limit-checked "
+                "limited parameter lies within the [MIN, MAX] constants folded from sodium.h (Argon2: outlen, passwdlen, opslimit, memlimit; "
+                "scrypt: outlen, passwdlen - its cost parameters are mapped, not limited, by design); generic dispatchers only forward arguments to limit-checked "
                 "functions; both low-level scrypt backends establish N power of two in [2,2^32-1], r,p != 0, r*p < 2^30 and agree on all "
                 "guards; needs_rehash returns exactly -1/0/1, answers 0/1 only after successful decoding, 0 only with an equality fact per "
                 "compared parameter. Hash outputs and the string grammar are not decided.",
